@@ -114,7 +114,8 @@ fn judge(ctx: &mut Ctx, ps: &mut Parsers, base: &Parsed, orig: &str, transformed
     let case = Case::new(t, transformed.as_str(), ext, conv).with(json!({"original": orig, "transformation": t, "detail": detail}));
     ctx.begin(&case);
     let Some(p) = parse(ps, &transformed, ext, conv) else {
-        ctx.count("panic_in_parse(C03)");
+        // the original parsed (base exists), the transformed text makes the parser panic: the transformation changed the outcome
+        ctx.violation(&case, t, &format!("panic_after_transformation|{detail}"), "the parser panics on the transformed text but not on the original".into());
         return;
     };
     match differ(base, &p) {
